@@ -5,6 +5,7 @@ import (
 	"bytes"
 	"compress/flate"
 	"context"
+	"errors"
 	"fmt"
 	"io"
 	"net"
@@ -43,6 +44,7 @@ const (
 	exOwnBuf            // message through NewWriterBuffer over a buffer the session owns and reuses, DisableFlush (grows)
 	exOwnHelper         // a frame compressed through the session's own wsflate.Helper value (its own compression level)
 	exBadText           // last step only: a text message that ends inside a character; the receiver's read fails, both sides leave
+	exBroadcast         // client only: the message is one slice all sessions of the process share (a broadcast), sent with WriteClientText
 	exCipher            // client only: header by hand, payload through wsutil.CipherWriter from a buffer the session owns (capacity = a pool class) and keeps
 )
 
@@ -111,6 +113,9 @@ func makeScript(seed uint64) *script {
 		if sc.Steps[i].FromCli && sc.Steps[i].Kind == exMsg && p.intn(3) == 0 {
 			sc.Steps[i].Kind = exCipher
 		}
+		if sc.Steps[i].FromCli && sc.Steps[i].Kind == exMsg && p.intn(3) == 0 {
+			sc.Steps[i].Kind = exBroadcast
+		}
 		if sc.Flate && sc.Steps[i].Kind == exCompressed && p.intn(2) == 0 {
 			sc.Steps[i].Kind = exOwnHelper
 		}
@@ -124,7 +129,17 @@ func makeScript(seed uint64) *script {
 	return sc
 }
 
+// Broadcast is one message every session of the run may send: the same slice,
+// as an application fanning a message out to its connections would pass it.
+// Rebuilt by the driver before every run.
+var Broadcast []byte
+
+const broadcastText = "to all connections: the same forty-eight bytes.."
+
 func payloadOf(ex exchange) []byte {
+	if ex.Kind == exBroadcast {
+		return []byte(broadcastText)
+	}
 	b := make([]byte, ex.Size)
 	x := prng{x: ex.Seed}
 	if ex.Text {
@@ -537,21 +552,21 @@ func (s *side) run() {
 		}
 	}
 	// Closing handshake: the client starts it.
-	if s.client {
-		code, reason := ws.StatusCode(s.sc.CloseCode), "bye"
-		switch s.sc.CloseKind {
-		case 1:
-			reason = string(bytes.Repeat([]byte("r"), 70+int(s.sc.Seed%50)))
-		case 2:
-			code, reason = 1005, string(bytes.Repeat([]byte("x"), 61+int(s.sc.Seed%60)))
-		case 3:
-			reason = string(bytes.Repeat([]byte("y"), 80)) + "\xff\xfe"
-		case 4:
-			reason = ""
-			if code > 1001 {
-				code = 1000
-			}
+	code, reason := ws.StatusCode(s.sc.CloseCode), "bye"
+	switch s.sc.CloseKind {
+	case 1:
+		reason = string(bytes.Repeat([]byte("r"), 70+int(s.sc.Seed%50)))
+	case 2:
+		code, reason = 1005, string(bytes.Repeat([]byte("x"), 61+int(s.sc.Seed%60)))
+	case 3:
+		reason = string(bytes.Repeat([]byte("y"), 80)) + "\xff\xfe"
+	case 4:
+		reason = ""
+		if code > 1001 {
+			code = 1000
 		}
+	}
+	if s.client {
 		f := ws.NewCloseFrame(ws.NewCloseFrameBody(code, reason))
 		f = ws.MaskFrameInPlace(f)
 		if err := ws.WriteFrame(s.conn, f); err != nil {
@@ -564,6 +579,15 @@ func (s *side) run() {
 	}
 	_, _, err := wsutil.ReadClientData(s.conn)
 	s.tr.add("close: %v", err)
+	// What the server is told about a valid close is what the client sent
+	// (looked at a little later, like an application that logs it).
+	if k := s.sc.CloseKind; k == 0 || k == 1 || k == 4 {
+		pbytes.Put(pbytes.GetLen(100)) // a scheduling point (and some pool traffic) before the look
+		var ce wsutil.ClosedError
+		if !errors.As(err, &ce) || ce.Code != code || ce.Reason != reason {
+			s.tr.add("close: wrong close report: got %v, the client sent code %d and a %d byte reason", err, code, len(reason))
+		}
+	}
 }
 
 // badText: the sender's text message ends inside a multi-byte character; the
@@ -671,6 +695,14 @@ func (s *side) send(i int, ex exchange) bool {
 				f = ws.MaskFrameInPlace(f)
 			}
 			err = ws.WriteFrame(s.conn, f)
+		}
+	case exBroadcast:
+		if string(Broadcast) != broadcastText {
+			s.tr.add("step %d: the shared broadcast message is not intact before this session sends it", i)
+		}
+		err = wsutil.WriteClientText(s.conn, Broadcast)
+		if string(Broadcast) != broadcastText {
+			s.tr.add("step %d: the shared broadcast message is not intact after this session sent it", i)
 		}
 	case exCipher:
 		// The payload lives in a buffer of the session whose capacity happens
